@@ -34,10 +34,12 @@ impl WalRecuperator {
 
     /// Runs the recovery
     pub(crate) fn run_recovery(&mut self, analysis: &AnalysisResult) -> RuntimeResult<()> {
-        // Redo first: the winners' work (including the creation of tables that only exist in the
-        // log) must be in place before the losers' leftovers are removed.
+        // The journal has returned the file to its last checkpoint, and a checkpoint is only taken
+        // while no transaction is open: nothing an unfinished or rolled-back transaction of this
+        // log did is in the file. Replaying the winners is all there is to do; undoing the losers
+        // would "take back" changes the file never held (dropping a column that was never added,
+        // re-inserting a row that was never deleted).
         self.run_redo(&analysis)?;
-        self.run_undo(&analysis)?;
 
         Ok(())
     }
